@@ -29,6 +29,7 @@ from .. import gen_state as S
 from .. import pycore, rsclient
 from .. import textparse as TP
 from . import c07_gen as GEN
+from . import c07_pristine as PR
 
 PROPERTY = "C07"
 RULE = ("probe cases: every (prefix|none, opcode) pair of decoder-accepted encodings as probe X (operands "
@@ -119,6 +120,21 @@ def diff_step(a: Dict[str, Any], b: Dict[str, Any], sha: pycore.HashMemory, shb:
 # --------------------------------------------------------------------------------------------------
 # Python core drivers
 
+_zygote: Optional[PR.PyPristine] = None
+_zygote_pid: Optional[int] = None
+
+
+def zygote() -> PR.PyPristine:
+    """Per-process fork server; must first be called before this process executes any case."""
+    global _zygote, _zygote_pid
+    import os
+
+    if _zygote is None or _zygote_pid != os.getpid():
+        _zygote = PR.PyPristine("py_run")
+        _zygote_pid = os.getpid()
+    return _zygote
+
+
 
 def in_region(case: Dict[str, Any], pc: int) -> bool:
     reg = case.get("region")
@@ -149,7 +165,7 @@ def py_run(case: Dict[str, Any]) -> List[Dict[str, Any]]:
     return steps
 
 
-def py_probe_rounds(rounds: List[Dict[str, Any]]) -> List[Dict[str, Any]]:
+def py_probe_rounds(rounds: List[Dict[str, Any]], ref_first: bool = True) -> List[Dict[str, Any]]:
     """Run all rounds on one long-lived Emulator.  Per round returns
     {"before": step, "kept": step, "after": step, "hist_steps": n, "hist_err": str|None, "hist_pcs": [...],
      "temps_written": bool}."""
@@ -158,7 +174,9 @@ def py_probe_rounds(rounds: List[Dict[str, Any]]) -> List[Dict[str, Any]]:
     mem = None
     for rd in rounds:
         probe = rd["probe"]
-        before = py_run(probe)
+        # ref_first=False: this process must not see the probe before the history ran (the reference then
+        # comes from the pristine process only), so a process-wide cache filled by the history is not masked
+        before = py_run(probe) if ref_first else None
         hist = rd["hist"]
         if emu is None:
             emu, mem = pycore.make_emulator(hist)
@@ -192,7 +210,10 @@ def py_probe_rounds(rounds: List[Dict[str, Any]]) -> List[Dict[str, Any]]:
         kept = pycore.step(emu, mem, want_temps=True)
         temps_written = any(kept["regs"].get(f"TEMP{i}") != t0.get(f"TEMP{i}") for i in range(14))
         after = py_run(probe)
-        out.append({"before": before[0] if before else {"err": "no step"}, "kept": kept,
+        res: Dict[str, Any] = {}
+        if before is not None:
+            res["before"] = before[0] if before else {"err": "no step"}
+        out.append({**res, "kept": kept,
                     "after": after[0] if after else {"err": "no step"},
                     "hist_steps": len(hist_pcs), "hist_err": hist_err, "hist_pcs": hist_pcs,
                     "temps_written": temps_written})
@@ -229,13 +250,14 @@ def _rs_steps(resp: Dict[str, Any]) -> List[Dict[str, Any]]:
     return resp.get("steps", [])
 
 
-def rs_probe_requests(rounds: List[Dict[str, Any]], tag: str) -> List[Dict[str, Any]]:
+def rs_probe_requests(rounds: List[Dict[str, Any]], tag: str, ref_first: bool = True) -> List[Dict[str, Any]]:
     reqs: List[Dict[str, Any]] = []
     for i, rd in enumerate(rounds):
         probe = dict(rd["probe"])
         probe.pop("peek", None)
         fresh = dict(probe, sess=f"{tag}-f", keep=False, stop_on_halt=False)
-        reqs.append(fresh)
+        # always 4 requests per round; without ref_first the first one is an inert zero-step request
+        reqs.append(fresh if ref_first else {"sess": f"{tag}-n", "keep": False, "steps": 0})
         hist = dict(rd["hist"], sess=f"{tag}-k", keep=(i > 0), stop_on_halt=False)
         if i > 0:
             hist["clear_mem"] = True
@@ -255,7 +277,8 @@ def rs_probe_requests(rounds: List[Dict[str, Any]], tag: str) -> List[Dict[str, 
     return reqs
 
 
-def rs_probe_rounds(rounds: List[Dict[str, Any]], results: List[Dict[str, Any]]) -> List[Dict[str, Any]]:
+def rs_probe_rounds(rounds: List[Dict[str, Any]], results: List[Dict[str, Any]], ref_first: bool = True
+                    ) -> List[Dict[str, Any]]:
     out = []
     for i, rd in enumerate(rounds):
         r0, rh, rk, r3 = results[4 * i:4 * i + 4]
@@ -269,7 +292,8 @@ def rs_probe_rounds(rounds: List[Dict[str, Any]], results: List[Dict[str, Any]])
             st = _rs_steps(r)
             return st[0] if st else {"err": "no step"}
 
-        out.append({"before": first(r0), "kept": first(rk), "after": first(r3), "hist_steps": len(hs),
+        res: Dict[str, Any] = {"before": first(r0)} if ref_first else {}
+        out.append({**res, "kept": first(rk), "after": first(r3), "hist_steps": len(hs),
                     "hist_err": herr, "hist_pcs": [s["pc"] for s in hs], "temps_written": False})
     return out
 
@@ -320,13 +344,17 @@ def judge_probe(case: Dict[str, Any], core: str, results: List[Dict[str, Any]]) 
         probe = rd["probe"]
         code = _probe_code(probe)
         where = where_of(core, code)
-        for sub, other in (("history-probe", "kept"), ("fresh-after-history", "after")):
-            fields, detail = diff_step(res["before"], res[other], _shadow(probe), _shadow(probe))
+        ref_name = "before" if "before" in res else "pristine"
+        for sub, other in (("history-probe", "kept"), ("fresh-after-history", "after"),
+                           ("fresh-process", "pristine")):
+            if other not in res or other == ref_name:
+                continue
+            fields, detail = diff_step(res[ref_name], res[other], _shadow(probe), _shadow(probe))
             if fields:
                 vcase = dict(case, focus={"core": core, "round": i})
                 out.append(Violation(sub, where, "differs: " + ",".join(fields), vcase,
-                                     f"round {i}, probe {code.hex()} at {probe['regs']['PC']:#x}: fresh(a) vs {other}(b): "
-                                     + "; ".join(detail)))
+                                     f"round {i}, probe {code.hex()} at {probe['regs']['PC']:#x}: "
+                                     f"fresh[{ref_name}](a) vs {other}(b): " + "; ".join(detail)))
     return out
 
 
@@ -413,17 +441,34 @@ def eval_probe_cases(cases: List[Dict[str, Any]], rep: Report, cores: Tuple[str,
             reqs: List[Dict[str, Any]] = []
             spans = []
             for j, case in enumerate(chunk):
-                r = rs_probe_requests(case["rounds"], f"p{j}")
+                r = rs_probe_requests(case["rounds"], f"p{j}", case.get("ref_first", True))
                 spans.append((len(reqs), len(reqs) + len(r)))
                 reqs += r
             res = rust.cpu_batch(reqs)
             for (a, b), case in zip(spans, chunk):
-                rs_results.append(rs_probe_rounds(case["rounds"], res[a:b]))
+                rs_results.append(rs_probe_rounds(case["rounds"], res[a:b], case.get("ref_first", True)))
+            # reference runs in a brand-new harness process
+            flat = [dict(rd["probe"]) for case in chunk for rd in case["rounds"]]
+            pr = PR.rust_pristine(flat)
+            k = 0
+            for rr in rs_results:
+                for r in rr:
+                    st = _rs_steps(pr[k])
+                    r["pristine"] = st[0] if st else {"err": "no step"}
+                    k += 1
+        py_pr: Optional[List[List[Dict[str, Any]]]] = None
+        if "py" in cores:
+            py_pr = zygote().run([rd["probe"] for case in chunk for rd in case["rounds"]])
+        kpr = 0
         for j, case in enumerate(chunk):
             labels: List[str] = list(case.get("labels", []))
             per_core: Dict[str, List[Dict[str, Any]]] = {}
             if "py" in cores:
-                per_core["py"] = py_probe_rounds(case["rounds"])
+                per_core["py"] = py_probe_rounds(case["rounds"], case.get("ref_first", True))
+                for r in per_core["py"]:
+                    st = py_pr[kpr] if py_pr is not None else []
+                    r["pristine"] = st[0] if st else {"err": "no step"}
+                    kpr += 1
             if rust is not None:
                 per_core["rs"] = rs_results[j]
             focus = case.get("focus") or {}
@@ -446,13 +491,13 @@ def eval_probe_cases(cases: List[Dict[str, Any]], rep: Report, cores: Tuple[str,
             if py is not None:
                 if any(r["temps_written"] for r in py):
                     classes.append("probe-writes-temp")
-                if any("err" in r["before"] for r in py):
+                if any("err" in r["pristine"] for r in py):
                     labels.append("python-exception:probe")
                 if any(r["hist_err"] for r in py):
                     labels.append("python-exception:history")
             rs = per_core.get("rs")
             if rs is not None:
-                if any("err" in r["before"] for r in rs):
+                if any("err" in r["pristine"] for r in rs):
                     labels.append("rust-error:probe")
                 if any(r["hist_err"] for r in rs):
                     labels.append("rust-error:history")
@@ -468,6 +513,7 @@ def eval_probe_cases(cases: List[Dict[str, Any]], rep: Report, cores: Tuple[str,
             for cl in classes:
                 labels.append("nt:" + cl)
             labels.append(f"rounds:{len(case['rounds'])}")
+            labels.append("order:" + ("reference-first" if case.get("ref_first", True) else "history-first"))
             labels.append("hist-steps:" + ("0-2" if hist_total < 3 else "3-9" if hist_total < 10 else "10-29" if hist_total < 30 else "30+"))
             labels.append("probe:" + ("prefixed" if pre is not None else "plain"))
             if hist_total >= 3 and classes:
@@ -478,7 +524,7 @@ def eval_probe_cases(cases: List[Dict[str, Any]], rep: Report, cores: Tuple[str,
                           "rounds": len(case["rounds"]), "history_steps_executed": hist_total,
                           "history_code": [S.code_of(r["hist"], 24).hex() for r in case["rounds"]],
                           "junk": case["rounds"][-1].get("junk"), "classes": classes,
-                          "py_fresh": {k: ref[-1]["before"].get(k) for k in ("regs", "power", "writes", "err")}}
+                          "fresh_result": {k: ref[-1]["pristine"].get(k) for k in ("regs", "power", "writes", "err")}}
             rep.case(ntkey, labels, sample)
 
 
@@ -542,6 +588,7 @@ def eval_split_cases(cases: List[Dict[str, Any]], rep: Report, cores: Tuple[str,
 
 def _shard(task: Tuple[int, int, str, int, int]) -> Report:
     shard, seed, tier, n_probe, n_split = task
+    zygote()  # fork the pristine-reference server before this process executes anything
     rep = Report()
     pool, redraws = GEN.make_pool(mix32(seed, shard, 0xC07), 4200)
     rep.extra["encoding_pool_redraws"] = redraws
@@ -554,6 +601,7 @@ def _shard(task: Tuple[int, int, str, int, int]) -> Report:
 
 def run(ctx: Ctx) -> Report:
     rsclient.build()
+    zygote()
     GEN.self_test()
     nshards = ctx.pick(16, 64)
     n_probe = ctx.pick(263, 700)
@@ -582,6 +630,7 @@ def run(ctx: Ctx) -> Report:
 
 def replay(ctx: Ctx, case: Dict[str, Any]) -> List[Violation]:
     rsclient.build()
+    zygote()
     rep = Report()
     cores: Tuple[str, ...] = ("py", "rs")
     f = case.get("focus") or {}
